@@ -310,8 +310,11 @@ def probe_case(text, earley, kind=None, msg=None):
             return out
         t = toks[-1]
         col = dashes - 1
-        want_line = srclines[line_of(t.index)]
-        if carets != 1 or col != len(last) or norm(last) != norm(want_line):
+        # the last source line is the one on which the last token ENDS (it may span lines: IS\nNOT, 'a\nb')
+        want_line = srclines[line_of(max(t.index, t.end - 1))]
+        end_col = t.end - starts[line_of(max(t.index, t.end - 1))]
+        if carets != 1 or col != len(last) or norm(last) != norm(want_line) or \
+                norm(last[:col]) != norm(want_line[:end_col]):
             cls = 'eof-caret'
             out.append(fail(cls, 'end-of-query caret is not one past the last token of the last source line', text,
                             shown=last, want=want_line, **ctx))
@@ -338,7 +341,7 @@ def probe_case(text, earley, kind=None, msg=None):
     # context lines: the token-bearing source lines just before
     if not out and len(shown) > 1:
         tl = tok_lines
-        cur = line_of(toks[min(k, len(toks) - 1)].index)
+        cur = line_of(toks[k].index) if k < len(toks) else line_of(max(toks[-1].index, toks[-1].end - 1))
         prev = [l for l in tl if l < cur][-(len(shown) - 1):]
         if [norm(srclines[l]) for l in prev] != [norm(s) for s in shown[:-1]]:
             out.append(fail('context-lines', 'context lines are not the preceding source lines', text,
@@ -456,8 +459,10 @@ def case_stream(rng, n_mut, n_sent, grammar):
         yield c
     for c in syn_after_multiline(rng, max(150, n_mut // 4)):
         yield c
+    for c in eof_after_multiline(rng, max(150, n_mut // 4)):
+        yield c
     for g in ["select /* a\n b */ 1 #", "select 'a\nb' #", "select a IS\nNOT null #", "select /* a\n b */ 1\n#\nfrom t",
-              "select 'a\n\nb',\n c\n from t &", "# /* a\n b */", "select a IS\nNOT null null", "select a NOT\n\n IN (1) (2)", "select `x\ny` from from", "select @'a\nb' @b", "select #\nfrom t", "select a\nfrom t #", "select @aa @bb", "select 'it''s' 'x' from", "select 1 1",
+              "select 'a\n\nb',\n c\n from t &", "# /* a\n b */", "select a from t where a IS\nNOT", "select a from t where x in (1, 'p\nq'", "insert into `my\ntable`", "select a IS\nNOT null null", "select a NOT\n\n IN (1) (2)", "select `x\ny` from from", "select @'a\nb' @b", "select #\nfrom t", "select a\nfrom t #", "select @aa @bb", "select 'it''s' 'x' from", "select 1 1",
               "  select\n    a b c d\n  from t t t", "select a /* c\n c */ from from", "select 'a\nb' from from",
               "select a from t1 join", "from", "\n\n  from", "select\n\n\n1\n\n\n2", "select * from t where a not b c",
               "select a from t where", "create", "select a,\n  b,\n  c c c\nfrom t", "\tselect\t1\t1", "select 1 )",
@@ -518,6 +523,36 @@ def syn_after_multiline(rng, n):
         sep = {'same': ' ', 'next': '\n' + rng.choice(['', '  ']), 'later': '\n\n  b\n'}[where]
         text = '\n'.join(pre + [head + ' ' + cons + ' b' + sep + bad])
         yield dict(src='synml:' + where, text=text)
+
+
+EOF_HEADS_KW = ['select a from t where a', 'select a from t where b = 1 and a', 'select * from t1 join t2 on x']
+EOF_KW = ['IS{nl}NOT', 'NOT{nl}IN', 'NOT{nl}LIKE', 'is{nl}not', 'not{nl}in']
+EOF_HEADS_VAL = ['select a from t where x in (1,', 'select (', 'select f(1,', 'select a from t where x = (', 'select a,\n b from t where (',
+                 'select a from (select', 'select case when']
+EOF_VALS = ["'p{nl}q'", '"p{nl}q"', '`a{nl}b`', "@'a{nl}b'", "@`a{nl}b`", "'x{nl}{nl}y'"]
+EOF_HEADS_ID = ['insert into', 'update', 'select * from t where x in (select a from', 'create table', 'drop table']
+EOF_IDS = ['`my{nl}table`', '`a{nl}{nl}b`', 'db.`t{nl}1`']
+EOF_OTHER = ['select a from t where NOT{nl}EXISTS', 'create table t (a int PRIMARY{nl}KEY', 'create KNOWLEDGE{nl}BASE',
+             'select a from t where not{nl}exists']
+
+
+def eof_after_multiline(rng, n):
+    """truncated statements (input ends too early) whose LAST token spans a line break: a keyword pair lexed as one token and
+    written on two lines, a string literal / quoted identifier / quoted variable containing a newline; every head x token kind,
+    with one or two newlines and varying indentation inside the token, optional leading blank lines / blanks / comment lines;
+    plus the same shapes with an ordinary last token after the multi-line one (control)"""
+    shapes = [(h, k) for h in EOF_HEADS_KW for k in EOF_KW] + [(h, v) for h in EOF_HEADS_VAL for v in EOF_VALS] + \
+             [(h, i) for h in EOF_HEADS_ID for i in EOF_IDS] + [('', o) for o in EOF_OTHER]
+    rng.shuffle(shapes)
+    for i in range(n):
+        head, tok = shapes[i % len(shapes)]
+        nl = rng.choice(['\n', '\n', '\n  ', '\n\n', ' \n\t', '\n    '])
+        lead = rng.choice(['', '', '  ', '\n', '\n\n  ', '-- c\n', '/* c */ ', '/* a\n b */\n'])
+        tail = rng.choice(['', '', '', ' ', '\n', ' -- t', ' ,'])   # ' ,' : an ordinary last token (control)
+        if rng.random() < 0.3:
+            head = head.replace(' ', '\n', 1) if head else head
+        text = lead + (head + ' ' if head else '') + tok.replace('{nl}', nl) + tail
+        yield dict(src='eofml', text=text)
 
 
 def layout_invariant(toks, sql):
